@@ -78,6 +78,7 @@ type FuncVC struct {
 	step          *stepCtx
 	curInstr      ssa.Instruction
 	pendingAt     ssa.CallInstruction
+	pendingFr     *Frame
 	storeOrd      map[ssa.Instruction]int
 	cutStarted    map[int]bool
 	entryPC       int
@@ -632,12 +633,21 @@ func (vc *FuncVC) explore(st *State, b *ssa.BasicBlock, idx int, prev *ssa.Basic
 				vc.goStmt(st, gs)
 				continue
 			}
-			vc.pendingAt = nil
+			if top {
+				vc.pendingAt = nil // (calls inside an inlined step callee must not drop the pending at-call ghost)
+			}
 			if top && len(vc.con.AtCall) > 0 {
 				if vc.step != nil && st.step != nil && st.dry == nil {
 					vc.pendingAt = x // applied inside the step, after the interference that precedes it
+					vc.pendingFr = st.fr
 				} else {
 					vc.atCall(st, x)
+				}
+			} else if !top && vc.step != nil && st.step != nil && st.dry == nil && vc.pendingAt == nil {
+				// a call inside an inlined step callee: the callee's step contract may attach ghost updates to it
+				if c := vc.stepContract(st); c != nil && len(c.AtCall) > 0 {
+					vc.pendingAt = x
+					vc.pendingFr = st.fr
 				}
 			}
 			vc.curInstr = in
@@ -811,11 +821,22 @@ func (vc *FuncVC) calleeKeys(st *State, c ssa.CallInstruction) []string {
 }
 
 func (vc *FuncVC) atCall(st *State, c ssa.CallInstruction) {
+	con := vc.con
+	inl := st.fr.caller != nil
+	if inl {
+		con = vc.stepContract(st) // inlined step callee: its own at-call clauses, over its own parameters
+		if con == nil {
+			return
+		}
+	}
 	keys := vc.calleeKeys(st, c)
-	for _, ac := range vc.con.AtCall {
+	for _, ac := range con.AtCall {
 		for _, k := range keys {
 			if k == ac.Callee || strings.HasSuffix(k, ac.Callee) {
 				vars := vc.specVars(st)
+				if inl {
+					vars = vc.frameVars(st)
+				}
 				for i, a := range c.Common().Args {
 					vars[fmt.Sprintf("arg%d", i)] = SV{V: st.val(a), T: a.Type()}
 				}
@@ -1317,6 +1338,18 @@ func (vc *FuncVC) flushAtCall(st *State) {
 	if vc.pendingAt != nil {
 		x := vc.pendingAt
 		vc.pendingAt = nil
+		// the call belongs to the top frame (at-call clauses are only attached to calls of the verified
+		// function itself); when the flush happens inside an inlined step callee, evaluate it there
+		cur := st.fr
+		fr := st.fr
+		for fr != nil && fr.fn != x.Parent() {
+			fr = fr.caller
+		}
+		if fr == nil {
+			return
+		}
+		st.fr = fr
 		vc.atCall(st, x)
+		st.fr = cur
 	}
 }
